@@ -1,1 +1,877 @@
-fn main() {}
+//! C18 — ZKIR: off-circuit evaluation and the compiled circuit agree on every program.
+//!
+//! Program enumeration with a differential oracle. The space is described in `gen_*` below; the
+//! two sides are `ZkirRelation::public_inputs` (off-circuit) and the real `MidnightCircuit` of
+//! the relation run through `MockProver` (in-circuit). See `judge` for the oracle.
+
+mod env;
+mod oracle;
+mod prog;
+
+use std::{
+    collections::{BTreeMap, HashMap, HashSet},
+    sync::Mutex,
+};
+
+use env::*;
+use midnight_proofs::dev::InstanceValue;
+use midnight_zk_stdlib::Relation;
+use midnight_zkir::{Instruction, IrType, IrValue, Operation, ZkirRelation};
+use oracle::*;
+use prog::*;
+use serde_json::json;
+use vcore::{catch, panic_site, CaseOut, Ctx, Level, Tier, Viol};
+
+fn trace() -> bool {
+    std::env::var("VC18_TRACE").is_ok()
+}
+
+// ---------------------------------------------------------------------------------------------
+// program space
+// ---------------------------------------------------------------------------------------------
+
+fn unary_ops() -> Vec<Operation> {
+    use Operation::*;
+    let mut v = vec![Neg, AffineCoordinates];
+    for n in [0usize, 1, 12, 31, 32, 33, 64] {
+        v.push(IntoBytes(n));
+    }
+    for t in [
+        IrType::Bool,
+        IrType::Bytes(4),
+        IrType::Native,
+        IrType::BigUint(8),
+        IrType::BigUint(256),
+        IrType::BigUint(560),
+        IrType::JubjubPoint,
+        IrType::JubjubScalar,
+    ] {
+        v.push(FromBytes(t));
+    }
+    v.extend([Sha256, Sha512, Poseidon, Publish]);
+    v
+}
+
+fn binary_ops() -> Vec<Operation> {
+    use Operation::*;
+    let mut v = vec![AssertEqual, AssertNotEqual, IsEqual, Add, Sub, Mul];
+    for n in [0u64, 1, 2, 65537] {
+        v.push(ModExp(n));
+    }
+    v.extend([InnerProduct, Poseidon]);
+    v
+}
+
+struct Space {
+    progs: Vec<Prog>,
+    seen: HashSet<String>,
+}
+
+impl Space {
+    fn new() -> Self {
+        Space { progs: vec![], seen: HashSet::new() }
+    }
+    fn push(&mut self, p: Option<Prog>) {
+        if let Some(p) = p {
+            if self.seen.insert(p.key.clone()) {
+                self.progs.push(p);
+            }
+        }
+    }
+}
+
+/// SHA circuits are the expensive ones: in the quick tier only the two shortest byte arrays.
+fn sha_allowed(tier: Tier, op: &Operation, e: &Ent) -> bool {
+    if tier.is_thorough() || !matches!(op, Operation::Sha256 | Operation::Sha512) {
+        return true;
+    }
+    match e.ty() {
+        Some(IrType::Bytes(n)) => n <= 32 && e.name() != "y32",
+        _ => true,
+    }
+}
+
+/// Depth 1: every instruction on every tuple of environment names of the right arity.
+fn gen_depth1(tier: Tier, seed: u64) -> Vec<Prog> {
+    let env = operand_env(tier, seed, false);
+    let red = operand_env(tier, seed, true);
+    let mut s = Space::new();
+    for op in unary_ops() {
+        for a in &env {
+            if sha_allowed(tier, &op, a) {
+                s.push(build(op, &[a], Tweak::None, None));
+            }
+        }
+    }
+    for op in binary_ops() {
+        for a in &env {
+            for b in &env {
+                s.push(build(op, &[a, b], Tweak::None, None));
+            }
+        }
+    }
+    // variadic operations with more inputs: 3-ary Poseidon and 4-ary InnerProduct over the
+    // reduced environment (all tuples in thorough; the well-typed and the documented mismatches
+    // in quick)
+    let pick = |n: &str| red.iter().find(|e| e.name() == n).unwrap();
+    if tier.is_thorough() {
+        for a in &red {
+            for b in &red {
+                for c in &red {
+                    s.push(build(Operation::Poseidon, &[a, b, c], Tweak::None, None));
+                    for d in &red {
+                        s.push(build(Operation::InnerProduct, &[a, b, c, d], Tweak::None, None));
+                    }
+                }
+            }
+        }
+    } else {
+        let (n, u, p, sc, b) = (pick("nm1"), pick("u64m"), pick("pg"), pick("sm1"), pick("b1"));
+        s.push(build(Operation::Poseidon, &[n, n, n], Tweak::None, None));
+        s.push(build(Operation::Poseidon, &[n, b, n], Tweak::None, None));
+        for t in [[n, n, n, n], [u, u, u, u], [sc, sc, p, p], [n, sc, n, p], [sc, n, p, n], [sc, sc, p, n], [n, n, n, u], [p, p, sc, sc]] {
+            s.push(build(Operation::InnerProduct, &t, Tweak::None, None));
+        }
+    }
+    s.progs
+}
+
+/// Structural variants of one well-typed representative program per operation.
+fn gen_variants(seed: u64) -> Vec<Prog> {
+    use Operation::*;
+    let vars = full_vars(seed);
+    let v = |n: &str| vars.iter().find(|e| e.name() == n).unwrap();
+    let reps: Vec<(Operation, Vec<&Ent>)> = vec![
+        (Publish, vec![v("nm1")]),
+        (AssertEqual, vec![v("u64m"), v("u64m")]),
+        (AssertNotEqual, vec![v("b0"), v("b1")]),
+        (IsEqual, vec![v("y1"), v("y1")]),
+        (Add, vec![v("u64m"), v("u97m")]),
+        (Sub, vec![v("u97m"), v("u64m")]),
+        (Mul, vec![v("sm1"), v("pg")]),
+        (Neg, vec![v("nm1")]),
+        (ModExp(2), vec![v("u64m"), v("u97m")]),
+        (InnerProduct, vec![v("n1"), v("nm1")]),
+        (AffineCoordinates, vec![v("pg")]),
+        (IntoBytes(12), vec![v("u64m")]),
+        (FromBytes(IrType::Native), vec![v("y1")]),
+        (Poseidon, vec![v("n1"), v("nm1")]),
+        (Sha256, vec![v("y1")]),
+        (Sha512, vec![v("y1")]),
+    ];
+    let mut s = Space::new();
+    for (op, args) in &reps {
+        s.push(build(*op, args, Tweak::None, None));
+        for t in TWEAKS {
+            s.push(build(*op, args, t, None));
+        }
+    }
+    s.progs
+}
+
+fn wit(e: &Ent) -> (&'static str, IrValue) {
+    match e {
+        Ent::Var { name, val, .. } => (*name, val.clone()),
+        _ => unreachable!(),
+    }
+}
+
+/// Load / Publish programs (depth 0): every variable, multi-output loads, every pair of
+/// (declared type, witness type), degenerate widths, every constant syntax class, the empty
+/// program, and the parameters that cannot be compiled.
+fn gen_load_publish(seed: u64) -> Vec<Prog> {
+    use Operation::*;
+    let vars = full_vars(seed);
+    let mut out = vec![];
+    // Load + Publish of every variable
+    for e in &vars {
+        let Ent::Var { name, ty, .. } = e else { continue };
+        out.push(custom(
+            &format!("Load({ty:?})[{name}]+Publish"),
+            Load(*ty),
+            &load_class(ty),
+            vec![ins(Load(*ty), &[], &[name]), ins(Publish, &[name], &[])],
+            1,
+            vec![wit(e)],
+            Expect::Valid,
+            "base",
+        ));
+    }
+    // multi-output loads: all variables of one declared type in a single instruction
+    let mut groups: Vec<(IrType, Vec<&Ent>)> = vec![];
+    for e in &vars {
+        let t = e.ty().unwrap();
+        match groups.iter_mut().find(|g| g.0 == t) {
+            Some(g) => g.1.push(e),
+            None => groups.push((t, vec![e])),
+        }
+    }
+    for (t, es) in &groups {
+        if es.len() < 2 {
+            continue;
+        }
+        let names: Vec<&str> = es.iter().map(|e| e.name()).collect();
+        let mut rev = names.clone();
+        rev.reverse();
+        out.push(custom(
+            &format!("Load({t:?})[{}]+Publish(reversed)", names.join(",")),
+            Load(*t),
+            &load_class(t),
+            vec![ins(Load(*t), &[], &names), ins(Publish, &rev, &[])],
+            1,
+            es.iter().map(|e| wit(e)).collect(),
+            Expect::Valid,
+            "multi-output",
+        ));
+    }
+    // the same name loaded twice (one instruction / two instructions)
+    out.push(custom(
+        "Load(Bool)[b0,b0]",
+        Load(IrType::Bool),
+        "Bool",
+        vec![ins(Load(IrType::Bool), &[], &["b0", "b0"]), ins(Publish, &["b0"], &[])],
+        1,
+        vec![("b0", false.into())],
+        Expect::IllFormed,
+        "duplicate-output-name",
+    ));
+    out.push(custom(
+        "Load(Bool)[b0];Load(Native)[b0]",
+        Load(IrType::Bool),
+        "Bool",
+        vec![ins(Load(IrType::Bool), &[], &["b0"]), ins(Load(IrType::Native), &[], &["b0"]), ins(Publish, &["b0"], &[])],
+        1,
+        vec![("b0", false.into())],
+        Expect::IllFormed,
+        "duplicate-output-name",
+    ));
+    // declared type x witness type
+    let big = |x: u64| -> IrValue { num_bigint::BigUint::from(x).into() };
+    let decl = [IrType::Bool, IrType::Bytes(2), IrType::Native, IrType::BigUint(8), IrType::JubjubPoint, IrType::JubjubScalar];
+    let vals: Vec<(&str, IrValue)> = vec![
+        ("Bool", true.into()),
+        ("Bytes(2)", vec![1u8, 2].into()),
+        ("Bytes(3)", vec![1u8, 2, 3].into()),
+        ("Bytes(1)", vec![1u8].into()),
+        ("Native", F::from(5).into()),
+        ("BigUint:200", big(200)),
+        ("BigUint:255", big(255)),
+        ("BigUint:256", big(256)),
+        ("JubjubPoint", seeded_point(seed).into()),
+        ("JubjubScalar", midnight_curves::Fr::from(3).into()),
+    ];
+    for t in decl {
+        for (vn, val) in &vals {
+            let well = match (t, val) {
+                (IrType::BigUint(w), IrValue::BigUint(b)) => b.bits() <= w as u64,
+                _ => val_type(val) == t,
+            };
+            out.push(custom(
+                &format!("Load({t:?})[x]<-{vn}"),
+                Load(t),
+                &format!("{}<-{}", load_class(&t), vn.split(':').next().unwrap()),
+                vec![ins(Load(t), &[], &["x"]), ins(Publish, &["x"], &[])],
+                1,
+                vec![("x", val.clone())],
+                if well { Expect::Valid } else { Expect::IllFormed },
+                "declared-type-x-witness-type",
+            ));
+        }
+    }
+    // degenerate widths
+    out.push(custom(
+        "Load(BigUint(0))[x]<-0",
+        Load(IrType::BigUint(0)),
+        "BigUint(0)",
+        vec![ins(Load(IrType::BigUint(0)), &[], &["x"]), ins(Publish, &["x"], &[])],
+        1,
+        vec![("x", big(0))],
+        Expect::Valid,
+        "degenerate-width",
+    ));
+    // witness missing / extra unrelated witnesses
+    out.push(custom(
+        "Load(Native)[x] without witness",
+        Load(IrType::Native),
+        "Native",
+        vec![ins(Load(IrType::Native), &[], &["x"]), ins(Publish, &["x"], &[])],
+        1,
+        vec![("xx", F::from(1).into())],
+        Expect::IllFormed,
+        "witness-missing",
+    ));
+    // the empty program, a program without Publish
+    out.push(custom("empty-program", Publish, "none", vec![], 0, vec![], Expect::Valid, "empty-program"));
+    // Publish: every constant syntax class; mixed types in one Publish; the same value twice
+    for c in all_consts() {
+        let Ent::Const { text, val } = &c else { continue };
+        out.push(custom(
+            &format!("Publish[const {}]", if text.is_empty() { "<empty>" } else { text }),
+            Publish,
+            &format!("const:{}", val.as_ref().map(|v| ty_class(&val_type(v))).unwrap_or("malformed")),
+            vec![ins(Publish, &[text], &[])],
+            1,
+            vec![],
+            if val.is_some() { Expect::Valid } else { Expect::IllFormed },
+            "publish-constant",
+        ));
+    }
+    {
+        let es: Vec<&Ent> = ["b1", "y33", "nm1", "u97m", "pg", "sm1"].iter().map(|n| vars.iter().find(|e| e.name() == *n).unwrap()).collect();
+        let (mut instrs, w) = loads(&es);
+        instrs.push(ins(Publish, &["b1", "y33", "nm1", "u97m", "pg", "sm1", "Native:-0x01", "nm1", "pg"], &[]));
+        instrs.push(ins(Publish, &["u97m", "1"], &[]));
+        out.push(custom("Publish[all six types, a constant, repeated values]", Publish, "all-types", instrs, 2, w, Expect::Valid, "mixed-publish"));
+    }
+    // a loaded name that looks like a constant shadows the constant on both sides
+    out.push(custom(
+        "Load(Native)[\"1\"]+Publish[\"1\"]",
+        Load(IrType::Native),
+        "Native",
+        vec![ins(Load(IrType::Native), &[], &["1"]), ins(Publish, &["1"], &[])],
+        1,
+        vec![("1", F::from(7).into())],
+        Expect::Valid,
+        "name-shadows-a-constant",
+    ));
+    // parameters for which no circuit can be built: off-circuit side only
+    for n in [1usize << 32, (1usize << 32) + 1, usize::MAX] {
+        let mut p = custom(
+            &format!("IntoBytes({n})[n1] off-circuit only"),
+            IntoBytes(n),
+            "Native:n>=2^32",
+            vec![ins(Load(IrType::Native), &[], &["n1"]), ins(IntoBytes(n), &["n1"], &["o0"])],
+            0,
+            vec![("n1", F::from(1).into())],
+            Expect::Valid,
+            "huge-parameter",
+        );
+        p.off_only = true;
+        out.push(p);
+    }
+    out
+}
+
+fn load_class(t: &IrType) -> String {
+    match t {
+        IrType::Bytes(0) => "Bytes(0)".into(),
+        IrType::BigUint(0) => "BigUint(0)".into(),
+        t => ty_class(t).to_string(),
+    }
+}
+
+/// Depth 2: op2 applied to an output of an Ok depth-1 prefix and a name of the reduced
+/// environment, in both positions, plus op2(o, o).
+fn gen_depth2(tier: Tier, seed: u64, prefixes: &[(Prog, Vec<IrType>)]) -> Vec<Prog> {
+    let red = operand_env(tier, seed, true);
+    let mut s = Space::new();
+    for (p, out_tys) in prefixes {
+        let outs: Vec<(String, IrType)> = out_tys.iter().enumerate().map(|(i, t)| (format!("o{i}"), *t)).collect();
+        let out_ents: Vec<Ent> = outs.iter().map(|(n, _)| Ent::Const { text: intern(n), val: None }).collect();
+        for o in &out_ents {
+            for op in unary_ops() {
+                s.push(build(op, &[o], Tweak::None, Some((p, &outs))));
+            }
+            for op in binary_ops() {
+                for o2 in &out_ents {
+                    s.push(build(op, &[o, o2], Tweak::None, Some((p, &outs))));
+                }
+                for v in &red {
+                    s.push(build(op, &[o, v], Tweak::None, Some((p, &outs))));
+                    s.push(build(op, &[v, o], Tweak::None, Some((p, &outs))));
+                }
+            }
+        }
+    }
+    s.progs
+}
+
+// ---------------------------------------------------------------------------------------------
+// oracle
+// ---------------------------------------------------------------------------------------------
+
+fn detail(p: &Prog) -> serde_json::Value {
+    json!({
+        "program_json": to_json(&p.instrs),
+        "witness": p.witness.iter().map(|(n, v)| json!({"name": n, "value": val_str(v)})).collect::<Vec<_>>(),
+        "expectation": format!("{:?}", p.expect),
+        "variant": p.variant,
+        "class": p.class,
+    })
+}
+
+fn off_same(a: &Off, b: &Off) -> bool {
+    match (a, b) {
+        (Off::Ok(x), Off::Ok(y)) => x == y,
+        (Off::Err(x), Off::Err(y)) => x == y,
+        (Off::Panic(x), Off::Panic(y)) => panic_site(x) == panic_site(y),
+        _ => false,
+    }
+}
+
+struct Judged {
+    out: CaseOut,
+    /// types of the published outputs when both sides agreed on success
+    ok_types: Option<Vec<IrType>>,
+}
+
+fn key3(p: &Prog, kind: &str) -> String {
+    format!("{}:{}:{}", p.op, p.class, kind)
+}
+
+/// One program x witness through both sides.
+fn judge(p: &Prog, comp: Option<&Comp>, rt_eval: bool) -> Judged {
+    let mut out = CaseOut::batch();
+    let mut ok_types = None;
+    let d = || detail(p);
+    macro_rules! done {
+        () => {
+            return Judged { out, ok_types }
+        };
+    }
+    // ---- constructors
+    let rel = match construct(&p.instrs) {
+        Err(pm) => {
+            out.eval("ctor:panic", true);
+            out.viol(Viol::new(key3(p, "from_instructions-panic"), format!("ZkirRelation::from_instructions panicked: {pm}"), d()));
+            done!();
+        }
+        Ok(Err(e)) => {
+            if p.expect == Expect::BadArity {
+                out.eval("ctor:err:bad-arity", true);
+                if !e.contains("wrong arity") {
+                    out.viol(Viol::new(key3(p, "bad-arity:unexpected-error"), format!("arity violation reported as {e}"), d()));
+                }
+                // the other two constructors must reject it too (error value, no panic)
+                match read_json(&to_json(&p.instrs)) {
+                    Ok(Err(_)) => out.eval("read:err:bad-arity", true),
+                    Ok(Ok(_)) => out.viol(Viol::new(format!("{}:bad-arity:read-accepts", p.op), "ZkirRelation::read accepts an instruction of wrong arity", d())),
+                    Err(pm) => out.viol(Viol::new(format!("{}:bad-arity:read-panic", p.op), format!("ZkirRelation::read panicked: {pm}"), d())),
+                }
+                let bytes = bincode::encode_to_vec(&p.instrs, bincode::config::standard()).expect("encode");
+                match read_binary(&bytes) {
+                    Ok(Err(_)) => out.eval("read_relation:err:bad-arity", true),
+                    Ok(Ok(_)) => out.viol(Viol::new(format!("{}:bad-arity:read_relation-accepts", p.op), "read_relation accepts an instruction of wrong arity", d())),
+                    Err(pm) => out.viol(Viol::new(format!("{}:bad-arity:read_relation-panic", p.op), format!("read_relation panicked: {pm}"), d())),
+                }
+            } else {
+                out.eval("ctor:err:unexpected", true);
+                out.viol(Viol::new(key3(p, "from_instructions-rejects-valid-arity"), format!("from_instructions: {e}"), d()));
+            }
+            done!();
+        }
+        Ok(Ok(rel)) => {
+            if p.expect == Expect::BadArity {
+                out.eval("ctor:ok:bad-arity", true);
+                out.viol(Viol::new(format!("{}:bad-arity:from_instructions-accepts", p.op), "from_instructions accepts an instruction of wrong arity", d()));
+                done!();
+            }
+            rel
+        }
+    };
+    // ---- off-circuit only: the program without its trailing Publish instructions never needs
+    // the in-circuit pass that `public_inputs` runs to learn the public-input types
+    let n_pre = p.instrs.len() - p.tail_publish;
+    let offp = if p.tail_publish == 0 {
+        public_inputs(&rel, &p.witness)
+    } else {
+        match construct(&p.instrs[..n_pre]) {
+            Ok(Ok(r)) => public_inputs(&r, &p.witness),
+            Ok(Err(e)) => Off::Err(format!("prefix constructor: {e}")),
+            Err(pm) => Off::Panic(pm),
+        }
+    };
+    if p.off_only {
+        out.eval(&format!("off-only:{}", offp.name()), true);
+        if let Off::Panic(m) = &offp {
+            out.viol(Viol::new(key3(p, "off-circuit-panic"), format!("off-circuit evaluation panicked: {m}"), d()));
+        }
+        done!();
+    }
+    let off = match (&offp, p.tail_publish) {
+        (_, 0) => offp.clone(),
+        (Off::Ok(_), _) => public_inputs(&rel, &p.witness),
+        _ => offp.clone(),
+    };
+    // ---- in-circuit
+    let k = comp.and_then(|c| c.k.clone()).and_then(|k| k.ok());
+    let compiles = comp.map(|c| matches!(c.synth, Ok(Ok(())))).unwrap_or(false);
+    let (pis, enc): (Pis, Option<Vec<F>>) = match &off {
+        Off::Ok(pis) => match catch(|| ZkirRelation::format_instance(pis)) {
+            Ok(Ok(v)) => (pis.clone(), Some(v)),
+            Ok(Err(e)) => {
+                out.viol(Viol::new(key3(p, "format_instance-rejects-public_inputs"), format!("format_instance fails on the result of public_inputs: {e:?}"), d()));
+                (pis.clone(), None)
+            }
+            Err(pm) => {
+                out.viol(Viol::new(key3(p, "format_instance-panic"), format!("format_instance panicked: {pm}"), d()));
+                (pis.clone(), None)
+            }
+        },
+        _ => (vec![], None),
+    };
+    let mut io = in_circuit(&rel, &p.witness, &pis, enc.as_deref(), k);
+    let inc = io.inc.clone();
+    if trace() {
+        eprintln!(
+            "TRACE {} | expect={:?} class={} | offp={} | off={} | inc={} k={}",
+            p.key,
+            p.expect,
+            p.class,
+            offp.text().chars().take(160).collect::<String>(),
+            off.text().chars().take(200).collect::<String>(),
+            inc.text().chars().take(200).collect::<String>(),
+            io.k
+        );
+    }
+    let ill = matches!(p.expect, Expect::IllTyped | Expect::IllFormed);
+    let tag = if ill { "ill" } else { "valid" };
+    out.eval(&format!("{tag}:off={}:in={}", off.name(), inc.name()), true);
+    out.counter(&format!("progs:{}", p.op), 1);
+    match (&offp, &off) {
+        (Off::Panic(m), _) => {
+            out.viol(Viol::new(
+                key3(p, "off-circuit-panic"),
+                format!("off-circuit evaluation (public_inputs on the program without Publish) panicked: {m}; in-circuit: {}", inc.text()),
+                d(),
+            ));
+        }
+        (Off::Err(e), _) | (Off::Ok(_), Off::Err(e)) => {
+            if ill {
+                out.counter("ill-seen", 1);
+            }
+            match &inc {
+                Inc::Sat => out.viol(Viol::new(
+                    key3(p, "off-circuit-rejects-in-circuit-accepts"),
+                    format!("off-circuit evaluation fails ({e}) but the circuit is satisfied by the same witness (exposed vector {:?})", io.exposed),
+                    d(),
+                )),
+                Inc::Unsat(_) | Inc::SynthErr(_) => {
+                    out.count(if ill { "agree:both-reject-ill" } else { "agree:both-reject-value-condition" }, 1);
+                    out.counter(&format!("agree-err:{}", p.op), 1);
+                }
+                Inc::Panic(m) => {
+                    if p.expect == Expect::Valid && compiles {
+                        // witness generation of a documented-valid program on an out-of-domain value
+                        out.count("crash-unsat", 1);
+                        out.counter(&format!("crash-unsat:{}", panic_site(m)), 1);
+                    } else {
+                        out.viol(Viol::new(
+                            key3(p, "in-circuit-panic"),
+                            format!("off-circuit returns Err({e}) but the in-circuit side panics instead of returning an error: {m}"),
+                            d(),
+                        ));
+                    }
+                }
+            }
+        }
+        (Off::Ok(_), Off::Panic(m)) => {
+            // the off-circuit pass succeeded; the panic comes from the in-circuit pass that
+            // public_inputs runs to learn the types
+            if is_cost_model_unwrap(m) {
+                let k1 = if ill { format!("ill-typed:{}:public_inputs-panics-via-cost-model", p.op) } else { key3(p, "doc-valid:public_inputs-panics-via-cost-model") };
+                out.viol(Viol::new(k1, format!("public_inputs panics (the synthesis error is unwrapped in the cost model) instead of returning the error: {m}"), d()));
+                out.viol(Viol::new(
+                    key3(p, "off-circuit-accepts-in-circuit-rejects"),
+                    format!("off-circuit evaluation succeeds, in-circuit: {}", inc.text()),
+                    d(),
+                ));
+            } else {
+                out.viol(Viol::new(
+                    key3(p, "in-circuit-panic"),
+                    format!("off-circuit evaluation succeeds; compiling the circuit panics (reached through public_inputs): {m}; MockProver run: {}", inc.text()),
+                    d(),
+                ));
+            }
+        }
+        (Off::Ok(_), Off::Ok(pis)) => match &inc {
+            Inc::Sat => {
+                let enc = enc.clone().unwrap_or_default();
+                if io.exposed != enc {
+                    out.viol(Viol::new(
+                        key3(p, "exposed-vector-differs-from-encoded-public-inputs"),
+                        format!("circuit exposes {:?}, format_instance(public_inputs) = {:?}", io.exposed, enc),
+                        d(),
+                    ));
+                } else {
+                    out.count("agree:ok-sat", 1);
+                    out.counter(&format!("ok-sat:{}", p.op), 1);
+                    if ill {
+                        out.viol(Viol::new(
+                            key3(p, "accepted-by-both-sides-but-not-documented"),
+                            format!("both sides accept (published {:?})", pis.iter().map(|x| x.1).collect::<Vec<_>>()),
+                            d(),
+                        ));
+                    } else {
+                        ok_types = Some(pis.iter().map(|x| x.1).collect());
+                    }
+                }
+                // instance binding: every single-position edit must be rejected
+                if let Some(prover) = io.prover.as_mut() {
+                    let empty = std::iter::empty::<usize>();
+                    for pos in 0..enc.len() {
+                        for (name, newv) in [("+1", InstanceValue::Assigned(enc[pos] + F::from(1))), ("padding", InstanceValue::Padding)] {
+                            if name == "padding" && enc[pos] == F::from(0) {
+                                continue;
+                            }
+                            let old = prover.instance()[1][pos].clone();
+                            prover.instance_mut()[1][pos] = newv;
+                            let ok = catch(|| prover.verify_at_rows(empty.clone(), empty.clone()).is_ok()).unwrap_or(false);
+                            prover.instance_mut()[1][pos] = old;
+                            out.eval(if ok { "instance-edit:accepted" } else { "instance-edit:rejected" }, true);
+                            if ok {
+                                out.viol(Viol::new(key3(p, "instance-not-bound"), format!("editing public input {pos} ({name}) is not rejected"), d()));
+                            }
+                        }
+                    }
+                }
+            }
+            Inc::Unsat(s) => out.viol(Viol::new(
+                key3(p, "honest-witness-unsatisfiable"),
+                format!("off-circuit evaluation succeeds but the circuit rejects the honest witness with instance format_instance(P): {s}; exposed {:?}, encoded {:?}", io.exposed, enc),
+                d(),
+            )),
+            Inc::SynthErr(s) => out.viol(Viol::new(
+                key3(p, "off-circuit-accepts-in-circuit-rejects"),
+                format!("off-circuit evaluation succeeds, synthesis with the witness fails: {s}"),
+                d(),
+            )),
+            Inc::Panic(m) => out.viol(Viol::new(
+                key3(p, "in-circuit-panic"),
+                format!("off-circuit evaluation succeeds, MockProver::run panics: {m}"),
+                d(),
+            )),
+        },
+    }
+    // ---- outcomes of the round-tripped relations on the same witness
+    if rt_eval {
+        let viaj = read_json(&to_json(&p.instrs));
+        let viab = write_bytes(&rel).map(|b| read_binary(&b));
+        for (name, r) in [("json", Some(viaj)), ("binary", viab.ok())] {
+            let Some(Ok(Ok(r2))) = r else {
+                out.count("roundtrip-eval:unreadable", 1);
+                continue; // reported by the compile group
+            };
+            let off2 = public_inputs(&r2, &p.witness);
+            out.eval(&format!("roundtrip-eval:{name}:{}", if off_same(&off, &off2) { "same" } else { "different" }), true);
+            if !off_same(&off, &off2) {
+                out.viol(Viol::new(
+                    format!("roundtrip:{name}:outcome-differs"),
+                    format!("public_inputs of the re-read relation: {} vs original {}", off2.text(), off.text()),
+                    d(),
+                ));
+            }
+        }
+    }
+    Judged { out, ok_types }
+}
+
+/// Per-shape facts: compilation with unknown witness and serialisation round trips.
+fn compile_case(p: &Prog) -> (CaseOut, Option<Comp>) {
+    let mut out = CaseOut::batch();
+    let d = || detail(p);
+    let Ok(Ok(rel)) = construct(&p.instrs) else {
+        out.eval("not-constructible", false);
+        return (out, None);
+    };
+    let comp = compile(&rel);
+    let ill = matches!(p.expect, Expect::IllTyped | Expect::IllFormed);
+    match &comp.synth {
+        Ok(Ok(())) => out.eval("compile:ok", true),
+        Ok(Err(_)) => {
+            out.eval("compile:err", true);
+            if p.expect == Expect::Valid {
+                out.count("compile:err:documented-valid-program", 1);
+            }
+        }
+        Err(m) => {
+            out.eval("compile:panic", true);
+            out.viol(Viol::new(
+                key3(p, "in-circuit-panic"),
+                format!("compiling the circuit (unknown witness, dummy_synthesize_run) panics: {m}"),
+                d(),
+            ));
+        }
+    }
+    if let Some(Err(m)) = &comp.k {
+        out.viol(Viol::new(key3(p, "min_k-panic"), format!("the circuit synthesises but min_k panics: {m}"), d()));
+    }
+    match (&comp.synth, &comp.from_relation) {
+        (_, Ok(_)) => out.eval("from_relation:ok", true),
+        (Ok(Err(e)), Err(m)) if is_cost_model_unwrap(m) => {
+            out.eval("from_relation:panic-instead-of-error", true);
+            let _ = ill;
+            out.viol(Viol::new(
+                "ill-typed:from_relation/min_k:panics-via-cost-model",
+                format!("synthesis returns Err({e}); MidnightCircuit::from_relation / min_k (hence setup_vk) panic instead: {m}"),
+                d(),
+            ));
+        }
+        (Err(_), Err(_)) => out.eval("from_relation:panic(compile panic)", true),
+        (_, Err(m)) => {
+            out.eval("from_relation:panic", true);
+            out.viol(Viol::new(key3(p, "from_relation-panic"), format!("MidnightCircuit::from_relation(..).min_k() panics: {m}"), d()));
+        }
+    }
+    // ---- round trips of the program text
+    let json = to_json(&p.instrs);
+    match write_bytes(&rel) {
+        Err(e) => out.viol(Viol::new("roundtrip:binary:write_relation-fails", e, d())),
+        Ok(b0) => {
+            match decode_instructions(&b0) {
+                Ok(i2) if i2 == p.instrs => out.eval("binary:decodes-to-the-same-instructions", true),
+                Ok(_) => out.viol(Viol::new("roundtrip:binary:instructions-changed", "write_relation bytes decode to different instructions", d())),
+                Err(e) => out.viol(Viol::new("roundtrip:binary:undecodable", e, d())),
+            }
+            match read_binary(&b0) {
+                Ok(Ok(r2)) => match write_bytes(&r2) {
+                    Ok(b1) if b1 == b0 => out.eval("binary:roundtrip-identical", true),
+                    _ => out.viol(Viol::new("roundtrip:binary:bytes-differ", "read_relation(write_relation(p)) writes different bytes", d())),
+                },
+                Ok(Err(e)) => out.viol(Viol::new("roundtrip:binary:read_relation-rejects", e, d())),
+                Err(m) => out.viol(Viol::new("roundtrip:binary:read_relation-panic", m, d())),
+            }
+            match read_json(&json) {
+                Ok(Ok(r2)) => match write_bytes(&r2) {
+                    Ok(b1) if b1 == b0 => out.eval("json:roundtrip-identical", true),
+                    _ => out.viol(Viol::new("roundtrip:json:bytes-differ", "read(json(p)) writes different bytes", d())),
+                },
+                Ok(Err(e)) => out.viol(Viol::new("roundtrip:json:read-rejects", e, d())),
+                Err(m) => out.viol(Viol::new("roundtrip:json:read-panic", m, d())),
+            }
+        }
+    }
+    (out, Some(comp))
+}
+
+/// Runs the compile group for the new shapes of `progs` and then the programs themselves.
+fn run_phase(
+    cx: &mut Ctx,
+    name: &str,
+    progs: Vec<Prog>,
+    comps: &Mutex<HashMap<String, Comp>>,
+    rt_eval: bool,
+) -> Vec<(Prog, Vec<IrType>)> {
+    // shapes not compiled yet
+    let mut shapes: Vec<(String, Prog)> = vec![];
+    {
+        let known = comps.lock().unwrap();
+        let mut seen = HashSet::new();
+        for p in &progs {
+            if p.off_only {
+                continue;
+            }
+            let s = shape(p);
+            if !known.contains_key(&s) && seen.insert(s.clone()) {
+                shapes.push((s, p.clone()));
+            }
+        }
+    }
+    cx.run_cases(&format!("{name}-compile"), &shapes, |p| {
+        let (out, comp) = compile_case(p);
+        if let Some(c) = comp {
+            comps.lock().unwrap().insert(shape(p), c);
+        }
+        out
+    });
+    let snapshot: HashMap<String, Comp> = comps.lock().unwrap().clone();
+    let oks: Mutex<Vec<(String, Vec<IrType>)>> = Mutex::new(vec![]);
+    let cases: Vec<(String, Prog)> = progs.into_iter().map(|p| (p.key.clone(), p)).collect();
+    cx.run_cases(name, &cases, |p| {
+        let comp = snapshot.get(&shape(p));
+        let j = judge(p, comp, rt_eval);
+        if let Some(t) = j.ok_types {
+            if p.variant == "base" {
+                oks.lock().unwrap().push((p.key.clone(), t));
+            }
+        }
+        j.out
+    });
+    let oks: BTreeMap<String, Vec<IrType>> = oks.into_inner().unwrap().into_iter().collect();
+    cases.into_iter().filter_map(|(k, p)| oks.get(&k).map(|t| (p, t.clone()))).collect()
+}
+
+/// The constant syntax classes against `IrValue::try_from(&str)`.
+fn check_constants(cx: &mut Ctx) {
+    let cases: Vec<(String, Ent)> = all_consts().into_iter().map(|e| (format!("const[{}]", e.name()), e)).collect();
+    cx.run_cases("constants", &cases, |e| {
+        let Ent::Const { text, val } = e else { unreachable!() };
+        let mut out = CaseOut::batch();
+        let got = catch(|| IrValue::try_from(*text));
+        match (&got, val) {
+            (Err(m), _) => out.viol(Viol::new("constants:parse-panic", format!("IrValue::try_from({text:?}) panicked: {m}"), json!({"text": text}))),
+            (Ok(Ok(v)), Some(w)) if v == w => out.eval("valid:parsed", true),
+            (Ok(Err(_)), None) => out.eval("malformed:rejected", true),
+            (Ok(r), _) => out.viol(Viol::new(
+                "constants:parse-differs-from-documentation",
+                format!("IrValue::try_from({text:?}) = {r:?}, the module documentation gives {:?}", val.as_ref().map(val_str)),
+                json!({"text": text}),
+            )),
+        }
+        out
+    });
+}
+
+fn main() {
+    let mut cx = Ctx::from_args("C18", Level::Exploration);
+    cx.worker_rayon_threads = Some(1);
+    cx.set_rule(
+        "straight-line ZKIR programs: Loads of the operands + ONE instruction of each of the 17 operations \
+         (parameters IntoBytes n in {0,1,12,31,32,33,64}, ModExp n in {0,1,2,65537}, FromBytes t in {Bool, Bytes(4), \
+         Native, BigUint(8|256|560), JubjubPoint, JubjubScalar}) applied to EVERY tuple of the right arity of names of \
+         a typed environment (witness variables of the 6 types bound to boundary values, constants of every syntax \
+         class incl. malformed ones; well- and ill-typed tuples alike) + Publish of the outputs [depth 1]; Load/Publish \
+         programs (every variable, multi-output loads, declared type x witness type, degenerate widths, every \
+         constant syntax class, empty program); 13 structural variants (arity +-1 on inputs/outputs, duplicate / \
+         missing / shadowing names, missing / ill-typed / oversize witnesses, no / double Publish) of one program per \
+         operation; depth 2 (thorough): op2 on an output of every Ok depth-1 prefix over the reduced environment, \
+         combined with every reduced-environment name in both positions. Per program shape: compilation with unknown \
+         witness (dummy_synthesize_run, min_k, MidnightCircuit::from_relation) and JSON / binary round trips. Per \
+         program x witness: public_inputs (off-circuit) vs MidnightCircuit + MockProver with the instance set to \
+         format_instance(public inputs) (in-circuit), the exposed vector read from the copy constraints of the \
+         instance column, every single-position edit of the instance. evaluations = verdicts (one per program plus one \
+         per instance edit and per round-trip comparison).",
+    );
+    cx.assume("MockProver (with the trash-argument evaluation of the C02 fix) is the satisfiability oracle for the honest witness");
+    cx.assume("in-circuit runs use the pow2range table size max_bit_len = 8 (what the repository's own ZKIR tests use); the size chosen by MidnightCircuit::from_relation is exercised by the compile group only");
+    cx.assume("unsatisfiability of a failing evaluation is judged for the honest witness generator (no prover deviations: those are C04-C09's subject)");
+    let (tier, seed) = (cx.tier, cx.seed);
+    check_constants(&mut cx);
+    let comps: Mutex<HashMap<String, Comp>> = Mutex::new(HashMap::new());
+
+    run_phase(&mut cx, "load-publish", gen_load_publish(seed), &comps, true);
+    run_phase(&mut cx, "variants", gen_variants(seed), &comps, true);
+    let d1 = gen_depth1(tier, seed);
+    let n_d1 = d1.len();
+    let ok1 = run_phase(&mut cx, "depth1", d1, &comps, tier.is_thorough());
+    cx.extra("depth1_programs", json!(n_d1));
+    cx.extra("depth1_ok_prefixes", json!(ok1.len()));
+    if tier.is_thorough() {
+        // prefixes over the reduced environment only
+        let red: Vec<&'static str> = operand_env(tier, seed, true).iter().map(|e| e.name()).collect();
+        let prefixes: Vec<(Prog, Vec<IrType>)> = ok1
+            .into_iter()
+            .filter(|(p, t)| {
+                !t.is_empty()
+                    && n_outputs(&p.operation) > 0
+                    && p.instrs[p.instrs.len() - p.tail_publish - 1].inputs.iter().all(|i| red.contains(&i.as_str()))
+            })
+            .collect();
+        cx.extra("depth2_prefixes", json!(prefixes.len()));
+        let d2 = gen_depth2(tier, seed, &prefixes);
+        cx.extra("depth2_programs", json!(d2.len()));
+        run_phase(&mut cx, "depth2", d2, &comps, false);
+    } else {
+        cx.note("depth 2 is explored in the thorough tier only");
+    }
+    // ---- anti-vacuity
+    for op in ALL_OPS {
+        let n = cx.counter_value(&format!("ok-sat:{op}"));
+        cx.require(n > 0, &format!("operation {op} never produced an (Ok, Sat) agreement"));
+    }
+    cx.require(cx.counter_value("ill-seen") > 50, "ill-typed / ill-formed programs must be part of the space");
+    cx.require(cx.class_count("variants:ctor:err:bad-arity") > 10, "wrong-arity variants must be rejected by the constructor");
+    cx.require(cx.class_count("depth1:instance-edit:rejected") > 50, "instance edits must be rejected somewhere");
+    let _: Option<Instruction> = None;
+    cx.finish()
+}
